@@ -19,6 +19,16 @@ namespace vt
 #define VT_MOVABLE 1
 #endif
 
+#ifdef VT_TRIVIAL
+  // Trivially copyable twin: same value type, all special members trivial (the memcpy/memmove/fill fast paths).
+  struct elem
+  {
+    elem (void) = default;
+    explicit elem (int);
+    int payload;
+  };
+  static_assert (std::is_trivially_copyable<elem>::value && std::is_trivial<elem>::value, "trivial twin");
+#else
   // Non-trivial element.  Flavour is chosen by the macros above (one flavour per TU).
   struct elem
   {
@@ -38,10 +48,13 @@ namespace vt
     explicit elem (int);            // a converting source for emplace
     int payload;
   };
+#endif
 
   bool operator== (const elem&, const elem&);
   bool operator<  (const elem&, const elem&);
+#ifndef VT_TRIVIAL
   void swap (elem&, elem&) noexcept (VT_MOVE_NOEXCEPT);
+#endif
 
 #ifndef VT_SIZE_T
 #define VT_SIZE_T std::size_t
